@@ -17,11 +17,11 @@ namespace Sel.C25
 
 /-- Plain names (letters, digits, `-`, `_`, non-ASCII letters) are lexed to themselves, up to
 any following text that cannot continue a name. -/
-theorem ident_plain_roundtrip (q : LexQuirks) (hash : Bool) (n rest : List Char) (hn : isPlainName n = true)
-    (hs : stopsName rest = true) : cssName q hash (n ++ rest) = some (n, rest) :=
+theorem ident_plain_roundtrip (q : LexQuirks) (hash : Bool) (n rest : List Char) (hn : isPlainName q n = true)
+    (hs : stopsName q rest = true) : cssName q hash (n ++ rest) = some (n, rest) :=
   cssName_plain q hash n rest hn hs
 
-example : isPlainName "a-b_1é".toList = true ∧ stopsName ".x".toList = true := by decide
+example : isPlainName lexSpec "a-b_1é©".toList = true ∧ stopsName lexSpec ".x".toList = true := by decide
 
 /-- What the printer writes for a class is a fixed point of the printer: a printed class name
 either starts with a non-digit or with `\` (C25 `print_canon`, name level). -/
@@ -37,7 +37,7 @@ theorem print_class_idempotent (c : List Char) : printClassName (printClassName 
 /-- The escape written for a digit-leading class (`.1y` → `.\31 y`) is lexed back to exactly
 the escaped text, which prints as itself: print ∘ parse ∘ print = print on such names. -/
 theorem ident_escape_roundtrip (q : LexQuirks) (d : Char) (rest stop : List Char) (hd : d ∈ ['0', '1', '2', '3', '4', '5', '6', '7', '8', '9'])
-    (hr : rest.all isPlainChar = true) (hs : stopsName stop = true) :
+    (hr : rest.all (isPlainChar q) = true) (hs : stopsName q stop = true) :
     cssName q false (printClassName (d :: rest) ++ stop) = some (printClassName (d :: rest), stop) := by
   have key : ∀ acc, nameTail q false (rest.length + stop.length + 1) acc (rest ++ stop) = (acc ++ rest, stop) :=
     fun acc => nameTail_plain q false rest acc stop _ hr hs (by omega)
@@ -57,24 +57,34 @@ theorem ident_escape_roundtrip (q : LexQuirks) (d : Char) (rest stop : List Char
       cssName, isPlainChar, isAlphanumeric, isAlphabetic, isAsciiAlpha, isHighLetter, isNumeric,
       escapedChar, takeHex, hexVal?, normFirst, highRaw, isControl, key, c0, c1, c2, c3, c4, c5, c6, c7, c8, c9]
 
-/-- Deviation `symbolEscapeRaw`, refutation of the round trip for the code as it is: the class
-`\\a9 x` (©x) is accepted and printed `.©x`, which the parser rejects; under the specification
-flags the printed text keeps the escape and parses to itself. -/
-theorem symbol_escape_asis_refuted :
-    (parseSelSet lexAsis ".\\a9 x".toList).map (SelSet.print false) = some ".©x".toList
-    ∧ parseSelSet lexAsis ".©x".toList = none
-    ∧ (parseSelSet lexSpec ".\\a9 x".toList).map (SelSet.print false) = some ".\\a9 x".toList := by
+/-- Deviation `symbolEscapeRaw` (repaired by /repo bcc4ec1), refutation of the round trip for the
+old code: the class `\\a9 x` (©x) was accepted and printed `.©x`, which the old lexer rejected;
+now (specification = the code today) every non-ASCII character is an identifier character and
+the printed text parses to itself. -/
+theorem symbol_escape_old_refuted :
+    (parseSelSet lexOld ".\\a9 x".toList).map (SelSet.print false) = some ".©x".toList
+    ∧ parseSelSet lexOld ".©x".toList = none
+    ∧ (parseSelSet lexSpec ".\\a9 x".toList).map (SelSet.print false) = some ".©x".toList
+    ∧ (parseSelSet lexSpec ".©x".toList).map (SelSet.print false) = some ".©x".toList := by
   decide +kernel
 
-/-- partial: on escapes of characters that are alphanumeric or below U+00A1 the as-is
-normaliser is the specified one -/
-theorem norm_asis_partial (c : Char) (h : c.toNat < 0xA1 ∨ isAlphanumeric c = true) :
-    normFirst lexAsis c = normFirst lexSpec c ∧ normRest lexAsis c = normRest lexSpec c := by
-  rcases h with h | h
-  · have h' : ¬ (c.toNat ≥ 0xA1) := by omega
-    simp [normFirst, normRest, highRaw, h']
-  · simp [normFirst, normRest, highRaw, h]
+/-- partial: on alphanumeric characters, `-` and `_` the old lexer's character class is the
+specified one -/
+theorem plain_old_partial (c : Char) (h : isAlphanumeric c = true ∨ c = '-' ∨ c = '_') :
+    isPlainChar lexOld c = isPlainChar lexSpec c := by
+  rcases h with h | h | h <;> simp [isPlainChar, h]
 
 example : isAlphanumeric 'é' = true := by decide
+
+/-- Deviation `quotedVerbatim` (repaired by /repo 60db3d6), refutation for the old code: the
+attribute value `"a\"b"` ended at the escaped quote and the selector was rejected; now it is
+read as `a"b` and printed with the quote escaped again. -/
+theorem quoted_escape_old_refuted :
+    parseSelSet lexOld "[h=\"a\\\"b\"]".toList = none
+    ∧ (parseSelSet lexSpec "[h=\"a\\\"b\"]".toList).map (SelSet.print false) = some "[h=\"a\\\"b\"]".toList := by
+  decide +kernel
+
+/-- the code today is the specification model -/
+theorem asis_is_spec : lexAsis = lexSpec := rfl
 
 end Sel.C25
